@@ -89,6 +89,23 @@ v('c17-no-callback','R-C17.2','utils/migrations.py',"            progress_callba
 v('c17-foreign-sender','R-C17.3','evolve/purge_app_task.py',"from django_evolution.mutators import AppMutator\n","from django_evolution.mutators import AppMutator\nfrom django_evolution.signals import applied_evolution\n",edits=[{'file':P+'evolve/purge_app_task.py','old':"from django_evolution.mutators import AppMutator\n",'new':"from django_evolution.mutators import AppMutator\nfrom django_evolution.signals import applied_evolution\n"},{'file':P+'evolve/purge_app_task.py','old':"                    last_sql_statement=getattr(e, 'last_sql_statement'))\n",'new':"                    last_sql_statement=getattr(e, 'last_sql_statement'))\n\n            applied_evolution.send(sender=self.evolver, task=self,\n                                   evolutions=[])\n"}],note='applied without applying')
 v('c17-lock-not-released-on-failure','R-C17.4','management/__init__.py',"@receiver([evolved, evolving_failed])","@receiver(evolved)")
 v('c17-lock-double-inc','R-C17.4','management/__init__.py',"    _evolve_lock += 1","    _evolve_lock += 2")
+v('c17-batch-announces-all','R-C17.5',T,"""                            task.execute(
+                                sql_executor=sql_executor,
+                                sql=task_sql,
+                                evolutions=[
+                                    evolution
+                                    for evolution in task.new_evolutions
+                                    if evolution.label in batch_labels
+                                ],
+                                **kwargs)""","""                            task.execute(
+                                sql_executor=sql_executor,
+                                sql=task_sql,
+                                **kwargs)""",note='the original defect F-C17')
+v('c17-batch-announces-task-list','R-C17.5',T,"""                                evolutions=[
+                                    evolution
+                                    for evolution in task.new_evolutions
+                                    if evolution.label in batch_labels
+                                ],""","""                                evolutions=list(task.new_evolutions),""")
 # silent
 v('c17-s-send-robust','R-C17.1',EV,"        evolved.send(sender=self)","        evolved.send_robust(sender=self)",expect='silent')
 v('c17-s-handler-local','R-C17.1',EV,"""            evolving_failed.send(sender=self,
